@@ -33,9 +33,13 @@ type Report struct {
 	Violations   []string // property violations, human readable
 	GooseErrors  []string
 	Rejected     map[string]string // Coq name of a rejected declaration -> error
-	Entries      []EntryReport
-	Text         string   // emitted GooseLang
-	Unknown      []string // model lacks a primitive (inconclusive entries)
+	// RejectedImport: an import declaration was rejected (renamed / dot imports); every function
+	// that uses a qualified name may then refer to something undefined, as with any other rejected
+	// declaration
+	RejectedImport bool
+	Entries        []EntryReport
+	Text           string   // emitted GooseLang
+	Unknown        []string // model lacks a primitive (inconclusive entries)
 }
 
 // Fuel for one entry evaluation.
@@ -66,6 +70,17 @@ func Validate(src string, runner *GoRunner) *Report {
 }
 
 // declNamesAt returns the Coq names defined by the top-level declaration containing pos.
+func inImportDecl(tr *Translation, pos token.Pos) bool {
+	for _, f := range tr.Files {
+		for _, d := range f.Decls {
+			if gd, ok := d.(*ast.GenDecl); ok && gd.Tok == token.IMPORT && d.Pos() <= pos && pos <= d.End() {
+				return true
+			}
+		}
+	}
+	return false
+}
+
 func declNamesAt(tr *Translation, pos token.Pos) []string {
 	for _, f := range tr.Files {
 		for _, d := range f.Decls {
@@ -153,6 +168,10 @@ func ValidateOpts(src string, runner *GoRunner, opts Options) *Report {
 		ce, ok := e.(*goose.ConversionError)
 		if !ok {
 			rep.Violations = append(rep.Violations, fmt.Sprintf("goose reported a non-structured error (%T): %v", e, e))
+			continue
+		}
+		if inImportDecl(tr, ce.Pos) {
+			rep.RejectedImport = true
 			continue
 		}
 		names := declNamesAt(tr, ce.Pos)
@@ -262,6 +281,9 @@ func ValidateOpts(src string, runner *GoRunner, opts Options) *Report {
 		er.Agree = er.Outcome == "value" && er.Model == er.Go
 		if !er.Agree {
 			dangling := false
+			if rep.RejectedImport && er.Outcome == "stuck" && strings.Contains(er.Model, "is neither defined") {
+				dangling = true
+			}
 			for name := range rep.Rejected {
 				if er.Outcome == "stuck" && strings.Contains(er.Model, "identifier "+name+" is neither defined") {
 					dangling = true
